@@ -74,6 +74,8 @@ def segsExpr : Expr → List Seg
   | .mulOp x y => segsExpr x ++ [.raw (b " * ")] ++ segsExpr y
   | .divOp x y => segsExpr x ++ [.raw (b " / ")] ++ segsExpr y
   | .mapFilterKeys keep keys m =>
+    if keep && keys.isEmpty then [.raw (b "mapFilter((k,v) -> 0, ")] ++ segsExpr m ++ [.raw (b ")")]
+    else
     [.raw (b "mapFilter((k,v) -> k " ++ b (if keep then "IN" else "NOT IN") ++ b " (")] ++
       joinS (b ",") (keys.map (fun k => [.str k])) ++ [.raw (b "), ")] ++ segsExpr m ++ [.raw (b ")")]
   | .mapAt m key => segsExpr m ++ [.raw (b "["), .str key, .raw (b "]")]
@@ -85,6 +87,7 @@ def segsExpr : Expr → List Seg
   | .regexMap labels re id => regexMapSegs labels re id
   | .mapDrop m ps => [.raw (b "mapFilter((k,v) -> ")] ++ joinS (b " and ") (ps.map dropClauseSegs) ++ [.raw (b ", ")] ++ segsExpr m ++ [.raw (b ")")]
   | .labelsFp => [.raw (b labelsFpText)]
+  | .quantileAgg units scale col => [.raw (b "quantile(" ++ b (fixedText units scale) ++ b ")(" ++ b col ++ b ")")]
 def segsSels : List Sel → List (List Seg)
   | [] => []
   | s :: ss => segsSel s :: segsSels ss
